@@ -4,7 +4,14 @@ package main
 // disagreement replays exactly, independent of the Go version's math/rand.
 type RNG struct{ s uint64 }
 
-func NewRNG(seed uint64) *RNG { return &RNG{seed*0x9E3779B97F4A7C15 + 0x1234567} }
+func NewRNG(seed uint64) *RNG {
+	// scramble the seed first: without this, seeds k and k+1 give the same
+	// stream shifted by one draw.
+	z := seed + 0x9E3779B97F4A7C15
+	z = (z ^ (z >> 30)) * 0xBF58476D1CE4E5B9
+	z = (z ^ (z >> 27)) * 0x94D049BB133111EB
+	return &RNG{z ^ (z >> 31)}
+}
 
 func (r *RNG) U64() uint64 {
 	r.s += 0x9E3779B97F4A7C15
